@@ -141,7 +141,7 @@ func (m *devModel) kindsAt(b *ssa.BasicBlock) map[string]bool {
 
 func isKindValue(v ssa.Value) bool {
 	n := namedOf(v.Type())
-	return n != nil && n.Obj().Name() == "deviationType"
+	return n != nil && objName(n.Obj()) == "deviationType"
 }
 
 // targetFieldPath: if addr is a field path rooted at the target, return "Config", "ListAttr.MinElements", …
